@@ -383,6 +383,35 @@ def _empty_guard(ctx: Ctx):
     return c08.rule_empty_guard(ctx, "C09.8")
 
 
+def rule_edit_row_range(ctx: Ctx) -> RuleResult:
+    """Edit.move_cursor_to_coords accepts a row only if the cursor can be put on it: the bounds the requested row is
+    compared with are display rows taken from the layout (the row of edit position 0 from position_coords(), the
+    number of layout lines) - a count made on the raw caption text does not know where the caption wraps."""
+    from ..rules.defuse import DefUse
+
+    p = ctx.p
+    rr = RuleResult("KIND", "C09.10", "Edit.move_cursor_to_coords compares the requested row only with rows derived from the layout (position_coords / get_line_translation)", floor=2)
+    fi = p.func("urwid.widget.edit.Edit.move_cursor_to_coords")
+    du = DefUse(fi)
+    y = fi.params[3]
+    LAYOUT = ("position_coords(", "get_line_translation(", "calc_coords(")
+    n = 0
+    for node in du.cfg.nodes:
+        if node.kind != "test":
+            continue
+        for c in ast.walk(node.ast):
+            if isinstance(c, ast.Compare) and len(c.ops) == 1 and any(isinstance(x, ast.Name) and x.id == y for x in (c.left, c.comparators[0])):
+                other = c.comparators[0] if isinstance(c.left, ast.Name) and c.left.id == y else c.left
+                txt = du.text(other, node)
+                n += 1
+                rr.inst(norm(c, 40), True, {"comparison": norm(c, 40), "bound_is": txt[:80]})
+                if not isinstance(other, ast.Constant) and not any(k in txt for k in LAYOUT):
+                    rr.add(finding("KIND", fi, c, f"the requested row is compared with `{txt[:80]}`, which is not derived from the layout (position_coords / get_line_translation): with a caption that wraps, caption-only rows are accepted, the move reports success and the cursor ends up on another row", construct=f"row bound not from the layout: {norm(c, 40)}"))
+    if n < 2:
+        raise AnalysisError("Edit.move_cursor_to_coords: the two bounds tests of the requested row were not found")
+    return rr
+
+
 def run(ctx: Ctx):
     p = ctx.p
     return [
@@ -395,6 +424,7 @@ def run(ctx: Ctx):
         posbound.run_posbound(p, "C09.7", GEOM_MODULES, floor=6),
         _empty_guard(ctx),
         accum.run_accum(p, "C09.9", "C09", floor=3),
+        rule_edit_row_range(ctx),
     ]
 
 
@@ -406,6 +436,7 @@ _PIL = "urwid/widget/pile.py"
 _COL = "urwid/widget/columns.py"
 _BOX = "urwid/widget/box_adapter.py"
 MUTANTS = [
+    Mut("edit-first-row-from-caption-newlines", "urwid/widget/edit.py", "Edit.move_cursor_to_coords", "_top_x, top_y = self.position_coords(maxcol, 0)", "top_y = self.caption.count(\"\\n\")", "KIND|widget.edit.Edit.move_cursor_to_coords"),
     Mut("filler-move-row-vs-cols", _FIL, "Filler.move_cursor_to_coords", "row >= maxrow - bottom", "row >= maxcol - bottom", "DIM|widget.filler.Filler.move_cursor_to_coords"),
     Mut("filler-mouse-size-drops-bottom", _FIL, "Filler.mouse_event", "return self._original_widget.mouse_event((maxcol, maxrow - top - bottom), event", "return self._original_widget.mouse_event((maxcol, maxrow - top), event", "GEOM|widget.filler.Filler.mouse_event"),
     Mut("filler-cursor-offset-bottom", _FIL, "Filler.get_cursor_coords", "return x, y + top", "return x, y + bottom", "PAIR|widget.filler.Filler.get_cursor_coords"),
